@@ -640,6 +640,12 @@ def judge(k, op, before, cur, created_in_tx):
                 return fail(k, op, 'parent-side get raises not-found for a committed row', kind='parent_read')
             if out[0] == 'ret' and out[1][2] is None and op[3] not in rows1 and not was_cached(before, 'P', op[3]):
                 return fail(k, op, 'parent-side get returns a row that is not committed', kind='parent_read')
+    # ---- a row that does not exist raises not-found -- also the next time: the failed get leaves nothing behind that a
+    #      later get of that id would hand out
+    if t == 'get' and not op[2] and side in ('P', 'T') and out == ['exc', 'ENotFound']:
+        if was_cached(cur, side, op[3]) and not was_cached(before, side, op[3]):
+            return fail(k, op, 'a get that raised not-found left an instance of that id in the cache: the next get will hand it out',
+                        kind='phantom_after_not_found')
         if t == 'read':
             v0 = before['slots'][op[1]]
             if op[2] not in cached(v0):          # a reload
@@ -730,12 +736,50 @@ def classify(case, obs, f):
     if v[3] and cached(v):
         return None          # flagged expired yet caching: expire_skips_flagged_instance, fixed in 3f1b5b1
     if not v[5]:
+        # the findings are about instances that an expire() -- explicit, or of a commit / rollback, or the purge of a
+        # destroySelf / the registration of a re-used id -- REMOVED from their cache; the harness saw when that happened
+        op = unregistered_at(case, obs, f['slot'], k)
+        if op is None or op[0] not in ('expire', 'commit', 'rollback', 'destroy', 'create'):
+            return None
         return 'commit_misses_purged_parent_instance' if own == 0 else 'rollback_misses_purged_instance'
     if v[1] not in walked:
         # the finding is about rows UPDATED through an instance the transaction's cache has lost; a row deleted in the
-        # transaction must be in _deletedCache, so a miss there is something else
-        return 'commit_forgets_uncached_row' if own == 0 and f.get('row') is not None else None
+        # transaction must be in _deletedCache, so a miss there is something else.  And the cache must have lost the id
+        # in one of the ways the finding names (reference dropped, expire(), rollback, cull)
+        if own != 0 or f.get('row') is None:
+            return None
+        op = left_txn_cache_at(case, obs, v[1], k)
+        if op is None or op[0] not in ('drop', 'expire', 'rollback', 'cull', 'get', 'select', 'create', 'destroy'):
+            return None
+        return 'commit_forgets_uncached_row'
     return None
+
+
+def unregistered_at(case, obs, slot, k):
+    """the operation at which the object held in `slot` stopped being handed out by its connection's cache (last change of
+    its observed 'registered' flag from True to False before step k); None if it never was registered"""
+    last, prev = None, None
+    for j in range(k):
+        sl = obs['steps'][j]['slots']
+        v = sl[slot] if slot < len(sl) else None
+        if v is None:
+            continue
+        if prev is True and not v[5]:
+            last = case['ops'][j]
+        prev = bool(v[5])
+    return last
+
+
+def left_txn_cache_at(case, obs, i, k):
+    """the operation at which id i last left the transaction's cache (strong keys + live weak ids) before step k"""
+    last, prev = None, False
+    for j in range(k):
+        c = obs['steps'][j]['caches'][1]
+        now = i in c[0] or i in c[1]
+        if prev and not now:
+            last = case['ops'][j]
+        prev = now
+    return last
 
 
 def nontrivial(case, obs):
